@@ -101,7 +101,10 @@ type Case struct {
 	Prior bool `json:"prior,omitempty"`
 	// RawPath: when set, the escaped form of Path the server received (URL.RawPath); Path stays the decoded request path,
 	// which is what the record carries
-	RawPath    string      `json:"raw_path,omitempty"`
+	RawPath string `json:"raw_path,omitempty"`
+	// SwapWriter: before doing anything else the handler replaces the context's writer (Context.SetWriter) by a fresh one
+	// built on the raw underlying writer, and answers through it: the record carries what that writer recorded.
+	SwapWriter bool        `json:"swap_writer,omitempty"`
 	Global     ResolverCfg `json:"global_resolver"`
 	Route      ResolverCfg `json:"route_resolver"`
 	Method     string      `json:"method"`
@@ -401,7 +404,11 @@ func wraps(c *Case) bool { return c.Install != "for-others" }
 // serve builds a fresh router for the case (with or without the Logger) and serves the request once.
 func serve(c *Case, withLogger bool) (*run, error) {
 	r := &run{errVal: errors.New("c20: error value passing through"), w: &under{h: http.Header{}}}
+	var raw http.ResponseWriter
 	script := func(fc fox.Context) {
+		if c.SwapWriter && raw != nil && fc.Request().Header.Get(priorHeader) == "" {
+			fc.SetWriter(fox.NewTestContextOnly(raw, fc.Request()).Writer())
+		}
 		if fc.Request().Header.Get(priorHeader) != "" {
 			fc.Writer().Header().Set("Location", "/c20-prior-location")
 			fc.Writer().WriteHeader(http.StatusFound)
@@ -549,6 +556,7 @@ func serve(c *Case, withLogger bool) (*run, error) {
 		RemoteAddr: c.RemoteAddr, RequestURI: c.Path, Body: http.NoBody,
 	}
 	w := mkWriter(r.w, c.ReaderFrom, c.Flusher)
+	raw = w
 	func() {
 		defer func() {
 			if v := recover(); v != nil {
@@ -1039,6 +1047,7 @@ func genCase(t *rapid.T) *Case {
 	c.ReaderFrom = rapid.Bool().Draw(t, "readerFrom")
 	c.Flusher = gen.Pick(t, []string{"", "flush", "flusherror", "both"}, "flusher")
 	c.Prior = gen.Chance(t, 1, 2, "prior")
+	c.SwapWriter = gen.Chance(t, 1, 5, "swapwriter")
 	gi := gen.U(t, len(ipPool), "globalIP")
 	ri := (gi + 1 + gen.U(t, len(ipPool)-1, "routeIP")) % len(ipPool)
 	c.Global = genResolver(t, []string{"none", "none", "nil", "ok", "ok", "ok", "fail", "fail"}, gi, "globalResolver")
